@@ -79,6 +79,7 @@ def run(ctx):
         ctx.run_rule("R5-slot-writers", r5_slots, F, ctx.pid)
         ctx.run_rule("R6-codec", r6_codec, F)
         ctx.run_rule("R7-not-implemented", r7_overrides, F)
+        ctx.run_rule("R8-path-walkers", r8_walkers, F)
     finally:
         vf.NOUPD[0] = False
     ctx.assumptions += ["backends number their own inodes consistently", "stale inode numbers after slot reuse are not examined"]
@@ -445,6 +446,37 @@ def r6_codec(ctx, F):
     ctx.check("R6-codec", "convert_inode/refuses", vf.fact("Gt(inode, VFS_MAX_INO)") in r and "Err(" in r, "convert_inode no longer refuses numbers above VFS_MAX_INO", loc=b.loc())
     ctx.check("R6-codec", "convert_inode/negative", "Eq(0, inode) => Ok(inode)" in r or "Eq(inode, 0) => Ok(inode)" in r, "convert_inode no longer passes the negative-entry number 0 through", loc=b.loc())
     ctx.check("R6-codec", "pseudo-index", F.const("api::vfs::VFS_PSEUDO_FS_IDX") == 0, "the pseudo filesystem index is not 0")
+
+
+def r8_walkers(ctx, F):
+    """PseudoFs::mount (creates the mount point's path) and PseudoFs::path_walk (finds it again for umount) resolve a path to the
+    same node: same step per component kind (`..` -> the node's parent, a name -> the child of that name), same refusals."""
+    rule = "R8-path-walkers"
+    steps = {}
+    for nm in ("mount", "path_walk"):
+        b = F.method("api::pseudo_fs::PseudoFs", nm)
+        ctx.fn_seen(b)
+        v = vf.VF(b, inline_depth=0, opaque_loops=True)
+        st = []
+        for c in live_calls(b):
+            if c.name == "get" and "HashMap" in (c.fn or c.callee or ""):
+                a = [vf.render(x, b, short=True, vfx=v) for x in v.call_args(c)]
+                g = [(vf.render(x, b, short=True, vfx=v), l) for (x, l, u) in v.guards(c.bb)]
+                comp = [l for (t, l) in g if t == "discr(some(Components::next(loop(iter))))"]
+                named = any(t.startswith("String::eq(some(Iter::next(loop(iter))).name, ") and l != 0 for (t, l) in g)
+                st.append((a[1], comp[-1] if comp else None, named))
+        steps[nm] = st
+        parent = [x for x in st if x[0] == "loop(inode).parent"]
+        child = [x for x in st if x[0] == "some(Iter::next(loop(iter))).ino" and x[2]]
+        ctx.check(rule, nm + "/dotdot-goes-to-parent", len(parent) == 1 and parent[0][1] is not None,
+                  "PseudoFs::%s: a `..` component must move to inodes[inode.parent]; steps found: %s" % (nm, [x[0] for x in st]), loc=b.loc())
+        ctx.check(rule, nm + "/name-goes-to-child", len(child) >= 1 and len(child) == len([x for x in st if x[0].endswith(".ino") and "Iter::next" in x[0]]),
+                  "PseudoFs::%s: a name component must move to the child whose name equals it; steps found: %s" % (nm, st), loc=b.loc())
+        other = [x for x in st if x not in parent and x not in child and not (nm == "mount" and "PseudoFs::create_inode(" in x[0])]
+        ctx.check(rule, nm + "/no-other-step", not other, "PseudoFs::%s moves to %s" % (nm, [x[0][:80] for x in other]), loc=b.loc())
+    pm = [x[1] for x in steps["mount"] if x[0] == "loop(inode).parent"]
+    pw = [x[1] for x in steps["path_walk"] if x[0] == "loop(inode).parent"]
+    ctx.check(rule, "agree/dotdot-component", pm == pw and pm != [], "mount and path_walk take the parent step for different component kinds (%s vs %s)" % (pm, pw))
 
 
 def r7_overrides(ctx, F):
